@@ -12,19 +12,22 @@ theorem holdsW_read {kind : RKind} {k j : Nat} {pc : PC} : holdsW (.read kind k)
 /-- TI of a thread at a pc that carries no obligation -/
 theorem TI.trivial' {s : St} {t : Nat} {th : Thread}
     (hpk : progOK th.prog th.pc = true) (hold : ∀ k, holdsW th.prog th.pc k = false) (hrs : th.pc.rsec = false)
-    (hne : (∀ p, th.pc ≠ .rCache p) ∧ th.pc ≠ .wCache ∧ (∀ a b, th.pc ≠ .mCache a b) ∧ (∀ a, th.pc ≠ .mWrite a) ∧
+    (hne : (∀ p, th.pc ≠ .rCache p) ∧ (∀ p, th.pc ≠ .rUnlock p) ∧ th.pc ≠ .wCache ∧ (∀ a b, th.pc ≠ .mCache a b) ∧ (∀ a, th.pc ≠ .mWrite a) ∧
       (∀ a, th.pc ≠ .mUnlock a) ∧ (∀ a b, th.pc ≠ .mLock a b))
     (hjs : ∀ a, th.pc = .done a → readKey th.prog ≠ none → th.just = true) : TI s t th := by
-  refine ⟨hpk, ?_, ?_, ?_, ?_, ?_, ?_, ?_, ?_, ?_, hjs⟩
+  refine ⟨hpk, ?_, ?_, ?_, ?_, ?_, ?_, ?_, ?_, ?_, hjs, ?_⟩
   · intro k hk; rw [hold k] at hk; cases hk
   · intro h; rw [hrs] at h; cases h
   · intro p k hp; exact absurd hp (hne.1 p)
-  · intro hp; exact absurd hp hne.2.1
-  · intro a b hp; exact absurd hp (hne.2.2.1 a b)
-  · intro a b hp; exact absurd hp (hne.2.2.2.2.2 a b)
-  · intro a hp; exact absurd hp (hne.2.2.2.1 a)
-  · intro a b hp; exact absurd hp (hne.2.2.1 a b)
+  · intro hp; exact absurd hp hne.2.2.1
+  · intro a b hp; exact absurd hp (hne.2.2.2.1 a b)
+  · intro a b hp; exact absurd hp (hne.2.2.2.2.2.2 a b)
   · intro a hp; exact absurd hp (hne.2.2.2.2.1 a)
+  · intro a b hp; exact absurd hp (hne.2.2.2.1 a b)
+  · intro a hp; exact absurd hp (hne.2.2.2.2.2.1 a)
+  · intro p hp; rcases hp with hp | hp
+    · exact absurd hp (hne.1 p)
+    · exact absurd hp (hne.2.1 p)
 
 theorem Inv.spawn {s : St} (hI : Inv s) (p : Prog) :
     Inv { s with threads := s.threads ++ [{ prog := p, pc := firstPC p }] } := by
@@ -52,7 +55,7 @@ theorem Inv.spawn {s : St} (hI : Inv s) (p : Prog) :
     by_cases hul : u < s.threads.length
     · rw [List.getElem?_append_left hul] at hu'
       have h := hI.thr u thu hu'
-      exact ⟨h.pk, h.wl, h.rl, h.rc, h.wc, h.mc, h.ml, h.mw, h.mh, h.mu, h.js⟩
+      exact ⟨h.pk, h.wl, h.rl, h.rc, h.wc, h.mc, h.ml, h.mw, h.mh, h.mu, h.js, h.jr⟩
     · have hge : s.threads.length ≤ u := Nat.le_of_not_lt hul
       rw [List.getElem?_append_right hge] at hu'
       cases hd : u - s.threads.length with
@@ -78,7 +81,7 @@ theorem Inv.evict {s : St} (hI : Inv s) (k0 : Nat) : Inv { s with cache := upd s
   refine ⟨?_, hI.wv, hI.rv, hI.ex, ?_⟩
   · intro u thu hu
     have h := hI.thr u thu hu
-    exact ⟨h.pk, h.wl, h.rl, h.rc, h.wc, h.mc, h.ml, h.mw, h.mh, h.mu, h.js⟩
+    exact ⟨h.pk, h.wl, h.rl, h.rc, h.wc, h.mc, h.ml, h.mw, h.mh, h.mu, h.js, h.jr⟩
   · intro k e hk
     have hk' : upd s.cache k0 none k = some e := hk
     by_cases hkk : k = k0
@@ -137,7 +140,7 @@ theorem Inv.stepRead {sz : Nat → Nat} {s s' : St} {t : Nat} {th : Thread} {kin
         by_cases hjk : j = k
         · subst hjk; rw [upd_same]; simp [hx]
         · rw [upd_other _ _ hjk]
-      · refine ⟨by rw [show (mv (Thread.mk (.read kind k) pc0 just0) .rRead false).prog = Prog.read kind k from rfl]; rfl, ?_, ?_, ?_, ?_, ?_, ?_, ?_, ?_, ?_, ?_⟩
+      · refine ⟨by rw [show (mv (Thread.mk (.read kind k) pc0 just0) .rRead false).prog = Prog.read kind k from rfl]; rfl, ?_, ?_, ?_, ?_, ?_, ?_, ?_, ?_, ?_, ?_, ?_⟩
         · intro j hj; have := hnw .rRead j; simp [mv] at hj; rw [this] at hj; cases hj
         · intro _ j hj
           have : j = k := by simp [mv, hprog, readKey] at hj; exact hj.symm
@@ -152,6 +155,7 @@ theorem Inv.stepRead {sz : Nat → Nat} {s s' : St} {t : Nat} {th : Thread} {kin
         · intro a b h; cases h
         · intro a h; cases h
         · intro a h; cases h
+        · intro p hp; rcases hp with hp | hp <;> cases hp
       · intro j hj
         obtain ⟨thx, h1, h2⟩ := hI.wv j t hj
         rw [hth] at h1; cases h1
@@ -187,7 +191,7 @@ theorem Inv.stepRead {sz : Nat → Nat} {s s' : St} {t : Nat} {th : Thread} {kin
     simp only [hpc, Option.some.injEq] at hs; subst hs
     have hin : t ∈ s.rholders k := hT.rl (by rw [hpc]; rfl) k (by rw [hprog]; rfl)
     refine hI.mk_step (th' := mv (Thread.mk (.read kind k) pc0 just0) (.rCache (present s k)) true) hth rfl (Frame.same rfl rfl rfl) ?_ ?_ ?_ hI.ex ?_
-    · refine ⟨by rw [show (mv (Thread.mk (.read kind k) pc0 just0) (.rCache (present s k)) true).prog = Prog.read kind k from rfl]; rfl, ?_, ?_, ?_, ?_, ?_, ?_, ?_, ?_, ?_, ?_⟩
+    · refine ⟨by rw [show (mv (Thread.mk (.read kind k) pc0 just0) (.rCache (present s k)) true).prog = Prog.read kind k from rfl]; rfl, ?_, ?_, ?_, ?_, ?_, ?_, ?_, ?_, ?_, ?_, ?_⟩
       · intro j hj; have := hnw (.rCache (present s k)) j; simp [mv] at hj; rw [this] at hj; cases hj
       · intro _ j hj
         have : j = k := by simp [mv, hprog, readKey] at hj; exact hj.symm
@@ -204,6 +208,7 @@ theorem Inv.stepRead {sz : Nat → Nat} {s s' : St} {t : Nat} {th : Thread} {kin
       · intro a b h; cases h
       · intro a h; cases h
       · intro a h; cases h
+      · intro p _; simp [mv]
     · intro j hj
       obtain ⟨thx, h1, h2⟩ := hI.wv j t hj
       rw [hth] at h1; cases h1
@@ -223,7 +228,7 @@ theorem Inv.stepRead {sz : Nat → Nat} {s s' : St} {t : Nat} {th : Thread} {kin
     have hin : t ∈ s.rholders k := hT.rl (by rw [hpc]; rfl) k (by rw [hprog]; rfl)
     have hp : p = present s k := hT.rc p k hpc (by rw [hprog]; rfl)
     refine hI.mk_step (th' := mv (Thread.mk (.read kind k) pc0 just0) (.rUnlock p) false) hth rfl (Frame.same rfl rfl rfl) ?_ ?_ ?_ hI.ex ?_
-    · refine ⟨by rw [show (mv (Thread.mk (.read kind k) pc0 just0) (.rUnlock p) false).prog = Prog.read kind k from rfl]; rfl, ?_, ?_, ?_, ?_, ?_, ?_, ?_, ?_, ?_, ?_⟩
+    · refine ⟨by rw [show (mv (Thread.mk (.read kind k) pc0 just0) (.rUnlock p) false).prog = Prog.read kind k from rfl]; rfl, ?_, ?_, ?_, ?_, ?_, ?_, ?_, ?_, ?_, ?_, ?_⟩
       · intro j hj; have := hnw (.rUnlock p) j; simp [mv] at hj; rw [this] at hj; cases hj
       · intro _ j hj
         have : j = k := by simp [mv, hprog, readKey] at hj; exact hj.symm
@@ -236,6 +241,10 @@ theorem Inv.stepRead {sz : Nat → Nat} {s s' : St} {t : Nat} {th : Thread} {kin
       · intro a b h; cases h
       · intro a h; cases h
       · intro a h; cases h
+      · intro q _
+        have := hT.jr p (Or.inl hpc)
+        simp only at this
+        simp [mv, this]
     · intro j hj
       obtain ⟨thx, h1, h2⟩ := hI.wv j t hj
       rw [hth] at h1; cases h1
@@ -249,15 +258,12 @@ theorem Inv.stepRead {sz : Nat → Nat} {s s' : St} {t : Nat} {th : Thread} {kin
         by_cases hjk : j = k
         · subst hjk
           right
-          have he' : upd s.cache j (some (match kind, p with
-              | .has, b => Entry.have b
-              | _, false => Entry.have false
-              | _, true => Entry.size (sz j))) j = some e := he
+          have he' : upd s.cache j (some (readEntry sz kind j p)) j = some e := he
           rw [upd_same] at he'
           cases he'
           show agr (present s j) _
           rw [← hp]
-          cases kind <;> cases p <;> simp [agr]
+          cases kind <;> cases p <;> simp [agr, readEntry]
         · left
           have he' : upd s.cache k _ j = some e := he
           rw [upd_other _ _ hjk] at he'; exact he'
@@ -292,7 +298,9 @@ theorem Inv.stepRead {sz : Nat → Nat} {s s' : St} {t : Nat} {th : Thread} {kin
       · simp [mv]
       · intro a _ _
         -- the answer was read from the store at rRead: `just` was set there
-        sorry
+        have := hT.jr p (Or.inr hpc)
+        simp only at this
+        simp [mv, this]
     · intro j hj
       obtain ⟨thx, h1, h2⟩ := hI.wv j t hj
       rw [hth] at h1; cases h1
@@ -308,6 +316,635 @@ theorem Inv.stepRead {sz : Nat → Nat} {s s' : St} {t : Nat} {th : Thread} {kin
       obtain ⟨thx, h1, h2⟩ := hI.wv j t hw
       rw [hth] at h1; cases h1
       rw [hnw _ j] at h2; cases h2
-  | _ => sorry
+  | _ => simp [hpc] at hs
+
+theorem Inv.stepPut {sz : Nat → Nat} {s s' : St} {t : Nat} {th : Thread} {k : Nat} (hI : Inv s)
+    (hth : s.threads[t]? = some th) (hprog : th.prog = .put k) (hs : stepThread sz s t th = some s') : Inv s' := by
+  obtain ⟨prog0, pc0, just0⟩ := th
+  simp only at hprog
+  subst hprog
+  have hT := hI.thr t _ hth
+  have hH : ∀ pc j, holdsW (.put k) pc j = true → (pc = .wWrite ∨ pc = .wCache ∨ pc = .wUnlock) ∧ j = k := by
+    intro pc j h; cases pc <;> simp [holdsW] at h <;> simp [h]
+  have noW : ∀ pc, pc ≠ .wWrite → pc ≠ .wCache → pc ≠ .wUnlock → ∀ j, holdsW (.put k) pc j = false := by
+    intro pc h1 h2 h3 j
+    cases hh : holdsW (.put k) pc j with
+    | false => rfl
+    | true => rcases (hH pc j hh).1 with e | e | e <;> contradiction
+  have notW : ∀ j, s.writer j = some t → holdsW (.put k) pc0 j = true := by
+    intro j hj
+    obtain ⟨thx, h1, h2⟩ := hI.wv j t hj
+    rw [hth] at h1; cases h1; exact h2
+  have notR : ∀ j, t ∉ s.rholders j := by
+    intro j hj
+    obtain ⟨thx, h1, _, h3⟩ := hI.rv j t hj
+    rw [hth] at h1; cases h1; simp [readKey] at h3
+  unfold stepThread at hs
+  simp only at hs
+  cases hpc : pc0 with
+  | qQuery =>
+    simp only [hpc] at hs
+    have loc : ∀ pc', (pc' = .done true ∨ pc' = .wLock) →
+        Inv (setThread s t (mv ⟨.put k, pc0, just0⟩ pc' false)) := by
+      intro pc' hp'
+      refine hI.localStep (pc' := pc') (j := false) hth (by rw [hpc]; exact noW _ (by simp) (by simp) (by simp)) (by rw [hpc]; rfl)
+        (by rcases hp' with e | e <;> rw [e] <;> exact noW _ (by simp) (by simp) (by simp)) (by rcases hp' with e | e <;> rw [e] <;> rfl)
+        (fun j => by rcases hp' with e | e <;> rw [e] <;> rfl) (by rcases hp' with e | e <;> rw [e] <;> rfl)
+        (fun a b h => by rcases hp' with e | e <;> rw [e] at h <;> cases h)
+        (fun a _ h => by simp [readKey] at h) (by rcases hp' with e | e <;> rw [e] <;> simp)
+    cases hc : s.cache k with
+    | none => simp only [hc, Option.some.injEq] at hs; subst hs; exact loc _ (Or.inr rfl)
+    | some e =>
+      simp only [hc] at hs
+      split at hs
+      · simp only [Option.some.injEq] at hs; subst hs; exact loc _ (Or.inl rfl)
+      · simp only [Option.some.injEq] at hs; subst hs; exact loc _ (Or.inr rfl)
+  | wLock =>
+    simp only [hpc] at hs
+    split at hs
+    · rename_i hfree
+      have hfree' : s.writer k = none ∧ s.rholders k = [] := by simpa using hfree
+      simp only [Option.some.injEq] at hs; subst hs
+      have hFr : Frame s (setThread { s with writer := upd s.writer k (some t) } t (mv ⟨.put k, pc0, just0⟩ .wWrite false)) t := by
+        refine ⟨?_, fun _ _ _ => Iff.rfl, fun _ => Or.inl rfl⟩
+        intro j
+        by_cases hjk : j = k
+        · subst hjk; exact Or.inr (Or.inl ⟨hfree'.1, by show upd s.writer j (some t) j = some t; rw [upd_same]⟩)
+        · exact Or.inl (by show upd s.writer k (some t) j = s.writer j; rw [upd_other _ _ hjk])
+      refine hI.mk_step (th' := mv ⟨.put k, pc0, just0⟩ .wWrite false) hth rfl hFr ?_ ?_ ?_ ?_ ?_
+      · refine ⟨rfl, ?_, (fun h => by cases h), (fun p j h => by cases h), (fun h => by cases h), (fun a b h => by cases h),
+          (fun a b h => by cases h), (fun a h => by cases h), (fun a b h => by cases h), (fun a h => by cases h), (fun a h => by cases h),
+          (fun p h => by rcases h with h | h <;> cases h)⟩
+        intro j hj
+        have := (hH .wWrite j hj).2; subst this
+        show upd s.writer j (some t) j = some t
+        rw [upd_same]
+      · intro j hj
+        have hj' : upd s.writer k (some t) j = some t := hj
+        by_cases hjk : j = k
+        · subst hjk; simp [mv, holdsW]
+        · rw [upd_other _ _ hjk] at hj'
+          have := notW j hj'; rw [hpc, noW .wLock (by simp) (by simp) (by simp) j] at this; cases this
+      · intro j hj; exact absurd hj (notR j)
+      · intro j w hw
+        have hw' : upd s.writer k (some t) j = some w := hw
+        by_cases hjk : j = k
+        · subst hjk; exact hfree'.2
+        · rw [upd_other _ _ hjk] at hw'; exact hI.ex j w hw'
+      · refine ci_step (th' := mv ⟨.put k, pc0, just0⟩ .wWrite false) hI hth rfl hFr (fun j e h => Or.inl h) (fun j h => absurd rfl h) ?_
+        intro j hw _
+        have := notW j hw; rw [hpc, noW .wLock (by simp) (by simp) (by simp) j] at this; cases this
+    · cases hs
+  | wWrite =>
+    simp only [hpc, Option.some.injEq] at hs; subst hs
+    have hwk : s.writer k = some t := hT.wl k (by rw [hpc]; simp [holdsW])
+    have hpres : ∀ j, j ≠ k → present { s with store := if s.store.contains k then s.store else k :: s.store } j = present s j := by
+      intro j hjk
+      simp only [present]
+      rw [present_insert]; simp [hjk]
+    have hFr : Frame s (setThread { s with store := if s.store.contains k then s.store else k :: s.store } t (mv ⟨.put k, pc0, just0⟩ .wCache false)) t := by
+      refine ⟨fun _ => Or.inl rfl, fun _ _ _ => Iff.rfl, ?_⟩
+      intro j
+      by_cases hjk : j = k
+      · subst hjk; exact Or.inr hwk
+      · exact Or.inl (hpres j hjk)
+    refine hI.mk_step (th' := mv ⟨.put k, pc0, just0⟩ .wCache false) hth rfl hFr ?_ ?_ ?_ hI.ex ?_
+    · refine ⟨rfl, ?_, (fun h => by cases h), (fun p j h => by cases h), ?_, (fun a b h => by cases h),
+        (fun a b h => by cases h), (fun a h => by cases h), (fun a b h => by cases h), (fun a h => by cases h), (fun a h => by cases h),
+        (fun p h => by rcases h with h | h <;> cases h)⟩
+      · intro j hj
+        have := (hH .wCache j hj).2; subst this; exact hwk
+      · intro _
+        refine ⟨fun j hj => ?_, fun j hj => by cases hj⟩
+        have : j = k := by cases hj; rfl
+        subst this
+        show (if s.store.contains j then s.store else j :: s.store).contains j = true
+        rw [present_insert]; simp
+    · intro j hj
+      have := notW j hj; rw [hpc] at this
+      have := (hH .wWrite j this).2; subst this
+      simp [mv, holdsW]
+    · intro j hj; exact absurd hj (notR j)
+    · refine ci_step (th' := mv ⟨.put k, pc0, just0⟩ .wCache false) hI hth rfl hFr (fun j e h => Or.inl h) ?_ ?_
+      · intro j hne
+        have hjk : j = k := by
+          by_cases hjk : j = k
+          · exact hjk
+          · exact absurd (hpres j hjk) hne
+        subst hjk
+        exact ⟨by simp [mv, dirtyAt], hwk⟩
+      · intro j _ hd; rw [hpc] at hd; simp [dirtyAt] at hd
+  | wCache =>
+    simp only [hpc, Option.some.injEq] at hs; subst hs
+    have hwk : s.writer k = some t := hT.wl k (by rw [hpc]; simp [holdsW])
+    have hwc := hT.wc hpc
+    have hFr : Frame s (setThread { s with cache := upd s.cache k (some (Entry.size (sz k))) } t (mv ⟨.put k, pc0, just0⟩ .wUnlock false)) t :=
+      ⟨fun _ => Or.inl rfl, fun _ _ _ => Iff.rfl, fun _ => Or.inl rfl⟩
+    refine hI.mk_step (th' := mv ⟨.put k, pc0, just0⟩ .wUnlock false) hth rfl hFr ?_ ?_ ?_ hI.ex ?_
+    · refine ⟨rfl, ?_, (fun h => by cases h), (fun p j h => by cases h), (fun h => by cases h), (fun a b h => by cases h),
+        (fun a b h => by cases h), (fun a h => by cases h), (fun a b h => by cases h), (fun a h => by cases h), (fun a h => by cases h),
+        (fun p h => by rcases h with h | h <;> cases h)⟩
+      intro j hj
+      have := (hH .wUnlock j hj).2; subst this; exact hwk
+    · intro j hj
+      have := notW j hj; rw [hpc] at this
+      have := (hH .wCache j this).2; subst this
+      simp [mv, holdsW]
+    · intro j hj; exact absurd hj (notR j)
+    · have hnew : ∀ e, upd s.cache k (some (Entry.size (sz k))) k = some e → agr (present s k) e := by
+        intro e he; rw [upd_same] at he; cases he
+        show agr (present s k) (Entry.size (sz k))
+        exact (hwc.1 k rfl)
+      refine ci_step (th' := mv ⟨.put k, pc0, just0⟩ .wUnlock false) hI hth rfl hFr ?_ (fun j h => absurd rfl h) ?_
+      · intro j e he
+        by_cases hjk : j = k
+        · subst hjk; exact Or.inr (hnew e he)
+        · left
+          have he' : upd s.cache k _ j = some e := he
+          rw [upd_other _ _ hjk] at he'; exact he'
+      · intro j _ hd
+        rw [hpc] at hd
+        have hjk : k = j := by simpa [dirtyAt] using hd
+        subst hjk
+        exact Or.inr (fun e he => hnew e he)
+  | wUnlock =>
+    simp only [hpc, Option.some.injEq] at hs; subst hs
+    have hwk : s.writer k = some t := hT.wl k (by rw [hpc]; simp [holdsW])
+    have hFr : Frame s (setThread { s with writer := upd s.writer k none } t (mv ⟨.put k, pc0, just0⟩ (.done true) false)) t := by
+      refine ⟨?_, fun _ _ _ => Iff.rfl, fun _ => Or.inl rfl⟩
+      intro j
+      by_cases hjk : j = k
+      · subst hjk; exact Or.inr (Or.inr ⟨hwk, by show upd s.writer j none j = none; rw [upd_same]⟩)
+      · exact Or.inl (by show upd s.writer k none j = s.writer j; rw [upd_other _ _ hjk])
+    refine hI.mk_step (th' := mv ⟨.put k, pc0, just0⟩ (.done true) false) hth rfl hFr ?_ ?_ ?_ ?_ ?_
+    · apply TI.trivial'
+      · rfl
+      · intro j; exact noW _ (by simp [mv]) (by simp [mv]) (by simp [mv]) j
+      · rfl
+      · simp [mv]
+      · intro a _ h; simp [mv, readKey] at h
+    · intro j hj
+      have hj' : upd s.writer k none j = some t := hj
+      by_cases hjk : j = k
+      · subst hjk; rw [upd_same] at hj'; cases hj'
+      · rw [upd_other _ _ hjk] at hj'
+        have := notW j hj'; rw [hpc] at this
+        exact absurd (hH .wUnlock j this).2 hjk
+    · intro j hj; exact absurd hj (notR j)
+    · intro j w hw
+      have hw' : upd s.writer k none j = some w := hw
+      by_cases hjk : j = k
+      · subst hjk; rw [upd_same] at hw'; cases hw'
+      · rw [upd_other _ _ hjk] at hw'; exact hI.ex j w hw'
+    · refine ci_step (th' := mv ⟨.put k, pc0, just0⟩ (.done true) false) hI hth rfl hFr (fun j e h => Or.inl h) (fun j h => absurd rfl h) ?_
+      intro j _ hd; rw [hpc] at hd; simp [dirtyAt] at hd
+  | _ => simp [hpc] at hs
+
+theorem Inv.stepDel {sz : Nat → Nat} {s s' : St} {t : Nat} {th : Thread} {k : Nat} (hI : Inv s)
+    (hth : s.threads[t]? = some th) (hprog : th.prog = .del k) (hs : stepThread sz s t th = some s') : Inv s' := by
+  obtain ⟨prog0, pc0, just0⟩ := th
+  simp only at hprog
+  subst hprog
+  have hT := hI.thr t _ hth
+  have hH : ∀ pc j, holdsW (.del k) pc j = true → (pc = .wWrite ∨ pc = .wCache ∨ pc = .wUnlock) ∧ j = k := by
+    intro pc j h; cases pc <;> simp [holdsW] at h <;> simp [h]
+  have noW : ∀ pc, pc ≠ .wWrite → pc ≠ .wCache → pc ≠ .wUnlock → ∀ j, holdsW (.del k) pc j = false := by
+    intro pc h1 h2 h3 j
+    cases hh : holdsW (.del k) pc j with
+    | false => rfl
+    | true => rcases (hH pc j hh).1 with e | e | e <;> contradiction
+  have notW : ∀ j, s.writer j = some t → holdsW (.del k) pc0 j = true := by
+    intro j hj
+    obtain ⟨thx, h1, h2⟩ := hI.wv j t hj
+    rw [hth] at h1; cases h1; exact h2
+  have notR : ∀ j, t ∉ s.rholders j := by
+    intro j hj
+    obtain ⟨thx, h1, _, h3⟩ := hI.rv j t hj
+    rw [hth] at h1; cases h1; simp [readKey] at h3
+  unfold stepThread at hs
+  simp only at hs
+  cases hpc : pc0 with
+  | qQuery =>
+    simp only [hpc] at hs
+    have loc : ∀ pc', (pc' = .done false ∨ pc' = .wLock) →
+        Inv (setThread s t (mv ⟨.del k, pc0, just0⟩ pc' false)) := by
+      intro pc' hp'
+      refine hI.localStep (pc' := pc') (j := false) hth (by rw [hpc]; exact noW _ (by simp) (by simp) (by simp)) (by rw [hpc]; rfl)
+        (by rcases hp' with e | e <;> rw [e] <;> exact noW _ (by simp) (by simp) (by simp)) (by rcases hp' with e | e <;> rw [e] <;> rfl)
+        (fun j => by rcases hp' with e | e <;> rw [e] <;> rfl) (by rcases hp' with e | e <;> rw [e] <;> rfl)
+        (fun a b h => by rcases hp' with e | e <;> rw [e] at h <;> cases h)
+        (fun a _ h => by simp [readKey] at h) (by rcases hp' with e | e <;> rw [e] <;> simp)
+    split at hs
+    · simp only [Option.some.injEq] at hs; subst hs; exact loc _ (Or.inl rfl)
+    · simp only [Option.some.injEq] at hs; subst hs; exact loc _ (Or.inr rfl)
+  | wLock =>
+    simp only [hpc] at hs
+    split at hs
+    · rename_i hfree
+      have hfree' : s.writer k = none ∧ s.rholders k = [] := by simpa using hfree
+      simp only [Option.some.injEq] at hs; subst hs
+      have hFr : Frame s (setThread { s with writer := upd s.writer k (some t) } t (mv ⟨.del k, pc0, just0⟩ .wWrite false)) t := by
+        refine ⟨?_, fun _ _ _ => Iff.rfl, fun _ => Or.inl rfl⟩
+        intro j
+        by_cases hjk : j = k
+        · subst hjk; exact Or.inr (Or.inl ⟨hfree'.1, by show upd s.writer j (some t) j = some t; rw [upd_same]⟩)
+        · exact Or.inl (by show upd s.writer k (some t) j = s.writer j; rw [upd_other _ _ hjk])
+      refine hI.mk_step (th' := mv ⟨.del k, pc0, just0⟩ .wWrite false) hth rfl hFr ?_ ?_ ?_ ?_ ?_
+      · refine ⟨rfl, ?_, (fun h => by cases h), (fun p j h => by cases h), (fun h => by cases h), (fun a b h => by cases h),
+          (fun a b h => by cases h), (fun a h => by cases h), (fun a b h => by cases h), (fun a h => by cases h), (fun a h => by cases h),
+          (fun p h => by rcases h with h | h <;> cases h)⟩
+        intro j hj
+        have := (hH .wWrite j hj).2; subst this
+        show upd s.writer j (some t) j = some t
+        rw [upd_same]
+      · intro j hj
+        have hj' : upd s.writer k (some t) j = some t := hj
+        by_cases hjk : j = k
+        · subst hjk; simp [mv, holdsW]
+        · rw [upd_other _ _ hjk] at hj'
+          have := notW j hj'; rw [hpc, noW .wLock (by simp) (by simp) (by simp) j] at this; cases this
+      · intro j hj; exact absurd hj (notR j)
+      · intro j w hw
+        have hw' : upd s.writer k (some t) j = some w := hw
+        by_cases hjk : j = k
+        · subst hjk; exact hfree'.2
+        · rw [upd_other _ _ hjk] at hw'; exact hI.ex j w hw'
+      · refine ci_step (th' := mv ⟨.del k, pc0, just0⟩ .wWrite false) hI hth rfl hFr (fun j e h => Or.inl h) (fun j h => absurd rfl h) ?_
+        intro j hw _
+        have := notW j hw; rw [hpc, noW .wLock (by simp) (by simp) (by simp) j] at this; cases this
+    · cases hs
+  | wWrite =>
+    simp only [hpc, Option.some.injEq] at hs; subst hs
+    have hwk : s.writer k = some t := hT.wl k (by rw [hpc]; simp [holdsW])
+    have hpres : ∀ j, j ≠ k → present { s with store := s.store.filter (· != k) } j = present s j := by
+      intro j hjk
+      simp only [present]
+      rw [present_erase]; simp [hjk]
+    have hFr : Frame s (setThread { s with store := s.store.filter (· != k) } t (mv ⟨.del k, pc0, just0⟩ .wCache false)) t := by
+      refine ⟨fun _ => Or.inl rfl, fun _ _ _ => Iff.rfl, ?_⟩
+      intro j
+      by_cases hjk : j = k
+      · subst hjk; exact Or.inr hwk
+      · exact Or.inl (hpres j hjk)
+    refine hI.mk_step (th' := mv ⟨.del k, pc0, just0⟩ .wCache false) hth rfl hFr ?_ ?_ ?_ hI.ex ?_
+    · refine ⟨rfl, ?_, (fun h => by cases h), (fun p j h => by cases h), ?_, (fun a b h => by cases h),
+        (fun a b h => by cases h), (fun a h => by cases h), (fun a b h => by cases h), (fun a h => by cases h), (fun a h => by cases h),
+        (fun p h => by rcases h with h | h <;> cases h)⟩
+      · intro j hj
+        have := (hH .wCache j hj).2; subst this; exact hwk
+      · intro _
+        refine ⟨(fun j hj => by cases hj), (fun j hj => ?_)⟩
+        have : j = k := by cases hj; rfl
+        subst this
+        show (s.store.filter (· != j)).contains j = false
+        rw [present_erase]; simp
+    · intro j hj
+      have := notW j hj; rw [hpc] at this
+      have := (hH .wWrite j this).2; subst this
+      simp [mv, holdsW]
+    · intro j hj; exact absurd hj (notR j)
+    · refine ci_step (th' := mv ⟨.del k, pc0, just0⟩ .wCache false) hI hth rfl hFr (fun j e h => Or.inl h) ?_ ?_
+      · intro j hne
+        have hjk : j = k := by
+          by_cases hjk : j = k
+          · exact hjk
+          · exact absurd (hpres j hjk) hne
+        subst hjk
+        exact ⟨by simp [mv, dirtyAt], hwk⟩
+      · intro j _ hd; rw [hpc] at hd; simp [dirtyAt] at hd
+  | wCache =>
+    simp only [hpc, Option.some.injEq] at hs; subst hs
+    have hwk : s.writer k = some t := hT.wl k (by rw [hpc]; simp [holdsW])
+    have hwc := hT.wc hpc
+    have hFr : Frame s (setThread { s with cache := upd s.cache k (some (Entry.have false)) } t (mv ⟨.del k, pc0, just0⟩ .wUnlock false)) t :=
+      ⟨fun _ => Or.inl rfl, fun _ _ _ => Iff.rfl, fun _ => Or.inl rfl⟩
+    refine hI.mk_step (th' := mv ⟨.del k, pc0, just0⟩ .wUnlock false) hth rfl hFr ?_ ?_ ?_ hI.ex ?_
+    · refine ⟨rfl, ?_, (fun h => by cases h), (fun p j h => by cases h), (fun h => by cases h), (fun a b h => by cases h),
+        (fun a b h => by cases h), (fun a h => by cases h), (fun a b h => by cases h), (fun a h => by cases h), (fun a h => by cases h),
+        (fun p h => by rcases h with h | h <;> cases h)⟩
+      intro j hj
+      have := (hH .wUnlock j hj).2; subst this; exact hwk
+    · intro j hj
+      have := notW j hj; rw [hpc] at this
+      have := (hH .wCache j this).2; subst this
+      simp [mv, holdsW]
+    · intro j hj; exact absurd hj (notR j)
+    · have hnew : ∀ e, upd s.cache k (some (Entry.have false)) k = some e → agr (present s k) e := by
+        intro e he; rw [upd_same] at he; cases he
+        show agr (present s k) (Entry.have false)
+        simp [agr, hwc.2 k rfl]
+      refine ci_step (th' := mv ⟨.del k, pc0, just0⟩ .wUnlock false) hI hth rfl hFr ?_ (fun j h => absurd rfl h) ?_
+      · intro j e he
+        by_cases hjk : j = k
+        · subst hjk; exact Or.inr (hnew e he)
+        · left
+          have he' : upd s.cache k _ j = some e := he
+          rw [upd_other _ _ hjk] at he'; exact he'
+      · intro j _ hd
+        rw [hpc] at hd
+        have hjk : k = j := by simpa [dirtyAt] using hd
+        subst hjk
+        exact Or.inr (fun e he => hnew e he)
+  | wUnlock =>
+    simp only [hpc, Option.some.injEq] at hs; subst hs
+    have hwk : s.writer k = some t := hT.wl k (by rw [hpc]; simp [holdsW])
+    have hFr : Frame s (setThread { s with writer := upd s.writer k none } t (mv ⟨.del k, pc0, just0⟩ (.done false) false)) t := by
+      refine ⟨?_, fun _ _ _ => Iff.rfl, fun _ => Or.inl rfl⟩
+      intro j
+      by_cases hjk : j = k
+      · subst hjk; exact Or.inr (Or.inr ⟨hwk, by show upd s.writer j none j = none; rw [upd_same]⟩)
+      · exact Or.inl (by show upd s.writer k none j = s.writer j; rw [upd_other _ _ hjk])
+    refine hI.mk_step (th' := mv ⟨.del k, pc0, just0⟩ (.done false) false) hth rfl hFr ?_ ?_ ?_ ?_ ?_
+    · apply TI.trivial'
+      · rfl
+      · intro j; exact noW _ (by simp [mv]) (by simp [mv]) (by simp [mv]) j
+      · rfl
+      · simp [mv]
+      · intro a _ h; simp [mv, readKey] at h
+    · intro j hj
+      have hj' : upd s.writer k none j = some t := hj
+      by_cases hjk : j = k
+      · subst hjk; rw [upd_same] at hj'; cases hj'
+      · rw [upd_other _ _ hjk] at hj'
+        have := notW j hj'; rw [hpc] at this
+        exact absurd (hH .wUnlock j this).2 hjk
+    · intro j hj; exact absurd hj (notR j)
+    · intro j w hw
+      have hw' : upd s.writer k none j = some w := hw
+      by_cases hjk : j = k
+      · subst hjk; rw [upd_same] at hw'; cases hw'
+      · rw [upd_other _ _ hjk] at hw'; exact hI.ex j w hw'
+    · refine ci_step (th' := mv ⟨.del k, pc0, just0⟩ (.done false) false) hI hth rfl hFr (fun j e h => Or.inl h) (fun j h => absurd rfl h) ?_
+      intro j _ hd; rw [hpc] at hd; simp [dirtyAt] at hd
+  | _ => simp [hpc] at hs
+
+theorem Inv.stepPutMany {sz : Nat → Nat} {s s' : St} {t : Nat} {th : Thread} {ks : List Nat} (hI : Inv s)
+    (hth : s.threads[t]? = some th) (hprog : th.prog = .putMany ks) (hs : stepThread sz s t th = some s') : Inv s' := by
+  obtain ⟨prog0, pc0, just0⟩ := th
+  simp only at hprog
+  subst hprog
+  have hT := hI.thr t _ hth
+  have notW : ∀ j, s.writer j = some t → holdsW (.putMany ks) pc0 j = true := by
+    intro j hj
+    obtain ⟨thx, h1, h2⟩ := hI.wv j t hj
+    rw [hth] at h1; cases h1; exact h2
+  have notR : ∀ j, t ∉ s.rholders j := by
+    intro j hj
+    obtain ⟨thx, h1, _, h3⟩ := hI.rv j t hj
+    rw [hth] at h1; cases h1; simp [readKey] at h3
+  have trivTI : ∀ (s1 : St) (pc' : PC) (jb : Bool),
+      (∀ j, holdsW (.putMany ks) pc' j = true → s1.writer j = some t) →
+      (∀ a b, pc' = .mCache a b → (∀ k, k ∈ b → present s1 k = true) ∧ (∀ k, k ∈ a → k ∈ b)) →
+      (∀ a b, pc' = .mLock a b → (a ++ b).Nodup) → (∀ a, pc' = .mWrite a → a.Nodup) →
+      (∀ a b, pc' = .mCache a b → b.Nodup) → (∀ a, pc' = .mUnlock a → a.Nodup) →
+      progOK (.putMany ks) pc' = true →
+      TI s1 t (mv ⟨.putMany ks, pc0, just0⟩ pc' jb) := by
+    intro s1 pc' jb h1 h2 h3 h4 h5 h6 h7
+    refine ⟨h7, h1, ?_, ?_, ?_, h2, h3, h4, h5, h6, ?_, ?_⟩
+    · intro h k hk; simp [mv, readKey] at hk
+    · intro p k _ hk; simp [mv, readKey] at hk
+    · intro hp
+      have hp' : pc' = .wCache := hp
+      rw [hp'] at h7; simp [progOK] at h7
+    · intro a _ h; simp [mv, readKey] at h
+    · intro p hp
+      have hp' : pc' = .rCache p ∨ pc' = .rUnlock p := hp
+      rcases hp' with e | e <;> rw [e] at h7 <;> simp [progOK] at h7
+  unfold stepThread at hs
+  simp only at hs
+  cases hpc : pc0 with
+  | mQuery todo good =>
+    have loc : ∀ pc', (∀ j, holdsW (.putMany ks) pc' j = false) → pc'.rsec = false → (∀ j, dirtyAt (.putMany ks) j pc' = false) →
+        progOK (.putMany ks) pc' = true → (∀ a b, pc' = .mLock a b → (a ++ b).Nodup) →
+        ((∀ p, pc' ≠ .rCache p) ∧ (∀ p, pc' ≠ .rUnlock p) ∧ pc' ≠ .wCache ∧ (∀ a b, pc' ≠ .mCache a b) ∧ (∀ a, pc' ≠ .mWrite a) ∧ (∀ a, pc' ≠ .mUnlock a)) →
+        Inv (setThread s t (mv ⟨.putMany ks, pc0, just0⟩ pc' false)) := by
+      intro pc' h1 h2 h3 h4 h5 h6
+      exact hI.localStep (pc' := pc') (j := false) hth (by rw [hpc]; intro j; rfl) (by rw [hpc]; rfl) h1 h2 h3 h4 h5
+        (fun a _ h => by simp [readKey] at h) h6
+    cases todo with
+    | nil =>
+      simp only [hpc] at hs
+      split at hs
+      · simp only [Option.some.injEq] at hs; subst hs
+        exact loc _ (fun _ => rfl) rfl (fun _ => rfl) rfl (fun a b h => by cases h) (by simp)
+      · simp only [Option.some.injEq] at hs; subst hs
+        refine loc _ (fun j => by simp [holdsW]) rfl (fun _ => rfl) rfl ?_ (by simp)
+        intro a b h; cases h; simpa using nodup_canon good
+    | cons k todo =>
+      simp only [hpc, Option.some.injEq] at hs; subst hs
+      exact loc _ (fun _ => rfl) rfl (fun _ => rfl) rfl (fun a b h => by cases h) (by simp)
+  | mLock todo held =>
+    have hnd := hT.ml todo held hpc
+    have hheld : ∀ j, j ∈ held → s.writer j = some t := fun j hj => hT.wl j (by rw [hpc]; simpa [holdsW] using hj)
+    cases todo with
+    | nil =>
+      simp only [hpc, Option.some.injEq] at hs; subst hs
+      have hFr : Frame s (setThread s t (mv ⟨.putMany ks, pc0, just0⟩ (.mWrite held) false)) t := Frame.refl' s t _
+      refine hI.mk_step (th' := mv ⟨.putMany ks, pc0, just0⟩ (.mWrite held) false) hth rfl hFr ?_ ?_ ?_ hI.ex ?_
+      · refine trivTI _ _ _ ?_ (fun a b h => by cases h) (fun a b h => by cases h) ?_ (fun a b h => by cases h) (fun a h => by cases h) rfl
+        · intro j hj; exact hheld j (by simpa [holdsW] using hj)
+        · intro a h; cases h; simpa using hnd
+      · intro j hj
+        have := notW j hj; rw [hpc] at this
+        simpa [mv, holdsW] using this
+      · intro j hj; exact absurd hj (notR j)
+      · refine ci_step (th' := mv ⟨.putMany ks, pc0, just0⟩ (.mWrite held) false) hI hth rfl hFr (fun j e h => Or.inl h) (fun j h => absurd rfl h) ?_
+        intro j _ hd; rw [hpc] at hd; simp [dirtyAt] at hd
+    | cons k todo =>
+      simp only [hpc] at hs
+      split at hs
+      · rename_i hfree
+        have hfree' : s.writer k = none ∧ s.rholders k = [] := by simpa using hfree
+        simp only [Option.some.injEq] at hs; subst hs
+        have hFr : Frame s (setThread { s with writer := upd s.writer k (some t) } t (mv ⟨.putMany ks, pc0, just0⟩ (.mLock todo (held ++ [k])) false)) t := by
+          refine ⟨?_, fun _ _ _ => Iff.rfl, fun _ => Or.inl rfl⟩
+          intro j
+          by_cases hjk : j = k
+          · subst hjk; exact Or.inr (Or.inl ⟨hfree'.1, by show upd s.writer j (some t) j = some t; rw [upd_same]⟩)
+          · exact Or.inl (by show upd s.writer k (some t) j = s.writer j; rw [upd_other _ _ hjk])
+        refine hI.mk_step (th' := mv ⟨.putMany ks, pc0, just0⟩ (.mLock todo (held ++ [k])) false) hth rfl hFr ?_ ?_ ?_ ?_ ?_
+        · refine trivTI _ _ _ ?_ (fun a b h => by cases h) ?_ (fun a h => by cases h) (fun a b h => by cases h) (fun a h => by cases h) rfl
+          · intro j hj
+            have hj' : j ∈ held ∨ j = k := by simpa [holdsW] using hj
+            show upd s.writer k (some t) j = some t
+            by_cases hjk : j = k
+            · subst hjk; rw [upd_same]
+            · rw [upd_other _ _ hjk]; exact hheld j (hj'.resolve_right hjk)
+          · intro a b h; cases h
+            have : ((k :: todo) ++ held).Nodup := hnd
+            simp only [List.cons_append, List.nodup_cons, List.nodup_append, List.mem_append, List.mem_singleton,
+              List.mem_cons, List.nodup_nil, and_true, true_and] at this ⊢
+            grind
+        · intro j hj
+          have hj' : upd s.writer k (some t) j = some t := hj
+          by_cases hjk : j = k
+          · subst hjk; simp [mv, holdsW]
+          · rw [upd_other _ _ hjk] at hj'
+            have := notW j hj'; rw [hpc] at this
+            have hm : j ∈ held := by simpa [holdsW] using this
+            simp [mv, holdsW, hm]
+        · intro j hj; exact absurd hj (notR j)
+        · intro j w hw
+          have hw' : upd s.writer k (some t) j = some w := hw
+          by_cases hjk : j = k
+          · subst hjk; exact hfree'.2
+          · rw [upd_other _ _ hjk] at hw'; exact hI.ex j w hw'
+        · refine ci_step (th' := mv ⟨.putMany ks, pc0, just0⟩ (.mLock todo (held ++ [k])) false) hI hth rfl hFr (fun j e h => Or.inl h) (fun j h => absurd rfl h) ?_
+          intro j _ hd; rw [hpc] at hd; simp [dirtyAt] at hd
+      · cases hs
+  | mWrite held =>
+    simp only [hpc, Option.some.injEq] at hs; subst hs
+    have hnd := hT.mw held hpc
+    have hheld : ∀ j, j ∈ held → s.writer j = some t := fun j hj => hT.wl j (by rw [hpc]; simpa [holdsW] using hj)
+    have hpres : ∀ j, present { s with store := held.foldl (fun st k => if st.contains k then st else k :: st) s.store } j = (present s j || held.contains j) := by
+      intro j; simp only [present]; exact present_foldl held s.store j
+    have hFr : Frame s (setThread { s with store := held.foldl (fun st k => if st.contains k then st else k :: st) s.store } t (mv ⟨.putMany ks, pc0, just0⟩ (.mCache held held) false)) t := by
+      refine ⟨fun _ => Or.inl rfl, fun _ _ _ => Iff.rfl, ?_⟩
+      intro j
+      by_cases hj : j ∈ held
+      · exact Or.inr (hheld j hj)
+      · left
+        have := hpres j
+        have hc : held.contains j = false := by simpa using hj
+        rw [hc, Bool.or_false] at this; exact this
+    refine hI.mk_step (th' := mv ⟨.putMany ks, pc0, just0⟩ (.mCache held held) false) hth rfl hFr ?_ ?_ ?_ hI.ex ?_
+    · refine trivTI _ _ _ ?_ ?_ (fun a b h => by cases h) (fun a h => by cases h) ?_ (fun a h => by cases h) rfl
+      · intro j hj; exact hheld j (by simpa [holdsW] using hj)
+      · intro a b h; cases h
+        refine ⟨fun j hj => ?_, fun _ h => h⟩
+        have := hpres j
+        have hc : held.contains j = true := by simpa using hj
+        rw [hc, Bool.or_true] at this; exact this
+      · intro a b h; cases h; exact hnd
+    · intro j hj
+      have := notW j hj; rw [hpc] at this
+      simpa [mv, holdsW] using this
+    · intro j hj; exact absurd hj (notR j)
+    · refine ci_step (th' := mv ⟨.putMany ks, pc0, just0⟩ (.mCache held held) false) hI hth rfl hFr (fun j e h => Or.inl h) ?_ ?_
+      · intro j hne
+        have hj : j ∈ held := by
+          by_cases hj : j ∈ held
+          · exact hj
+          · exfalso; apply hne
+            have := hpres j
+            have hc : held.contains j = false := by simpa using hj
+            rw [hc, Bool.or_false] at this; exact this
+        exact ⟨by simpa [mv, dirtyAt] using hj, hheld j hj⟩
+      · intro j _ hd; rw [hpc] at hd; simp [dirtyAt] at hd
+  | mCache todo held =>
+    have hmc := hT.mc todo held hpc
+    have hnd := hT.mh todo held hpc
+    have hheld : ∀ j, j ∈ held → s.writer j = some t := fun j hj => hT.wl j (by rw [hpc]; simpa [holdsW] using hj)
+    cases todo with
+    | nil =>
+      simp only [hpc, Option.some.injEq] at hs; subst hs
+      have hFr : Frame s (setThread s t (mv ⟨.putMany ks, pc0, just0⟩ (.mUnlock held) false)) t := Frame.refl' s t _
+      refine hI.mk_step (th' := mv ⟨.putMany ks, pc0, just0⟩ (.mUnlock held) false) hth rfl hFr ?_ ?_ ?_ hI.ex ?_
+      · refine trivTI _ _ _ ?_ (fun a b h => by cases h) (fun a b h => by cases h) (fun a h => by cases h) (fun a b h => by cases h) ?_ rfl
+        · intro j hj; exact hheld j (by simpa [holdsW] using hj)
+        · intro a h; cases h; exact hnd
+      · intro j hj
+        have := notW j hj; rw [hpc] at this
+        simpa [mv, holdsW] using this
+      · intro j hj; exact absurd hj (notR j)
+      · refine ci_step (th' := mv ⟨.putMany ks, pc0, just0⟩ (.mUnlock held) false) hI hth rfl hFr (fun j e h => Or.inl h) (fun j h => absurd rfl h) ?_
+        intro j _ hd; rw [hpc] at hd; simp [dirtyAt] at hd
+    | cons k todo =>
+      simp only [hpc, Option.some.injEq] at hs; subst hs
+      have hkheld : k ∈ held := hmc.2 k (by simp)
+      have hFr : Frame s (setThread { s with cache := upd s.cache k (some (Entry.size (sz k))) } t (mv ⟨.putMany ks, pc0, just0⟩ (.mCache todo held) false)) t :=
+        ⟨fun _ => Or.inl rfl, fun _ _ _ => Iff.rfl, fun _ => Or.inl rfl⟩
+      refine hI.mk_step (th' := mv ⟨.putMany ks, pc0, just0⟩ (.mCache todo held) false) hth rfl hFr ?_ ?_ ?_ hI.ex ?_
+      · refine trivTI _ _ _ ?_ ?_ (fun a b h => by cases h) (fun a h => by cases h) ?_ (fun a h => by cases h) rfl
+        · intro j hj; exact hheld j (by simpa [holdsW] using hj)
+        · intro a b h; cases h
+          exact ⟨hmc.1, fun j hj => hmc.2 j (List.mem_cons_of_mem _ hj)⟩
+        · intro a b h; cases h; exact hnd
+      · intro j hj
+        have := notW j hj; rw [hpc] at this
+        simpa [mv, holdsW] using this
+      · intro j hj; exact absurd hj (notR j)
+      · have hnew : ∀ e, upd s.cache k (some (Entry.size (sz k))) k = some e → agr (present s k) e := by
+          intro e he; rw [upd_same] at he; cases he
+          exact hmc.1 k hkheld
+        refine ci_step (th' := mv ⟨.putMany ks, pc0, just0⟩ (.mCache todo held) false) hI hth rfl hFr ?_ (fun j h => absurd rfl h) ?_
+        · intro j e he
+          by_cases hjk : j = k
+          · subst hjk; exact Or.inr (hnew e he)
+          · left
+            have he' : upd s.cache k _ j = some e := he
+            rw [upd_other _ _ hjk] at he'; exact he'
+        · intro j hw hd
+          rw [hpc] at hd
+          have hd' : j = k ∨ j ∈ todo := by simpa [dirtyAt] using hd
+          by_cases hjt : j ∈ todo
+          · exact Or.inl ⟨by simpa [mv, dirtyAt] using hjt, hw⟩
+          · have hjk : j = k := hd'.resolve_right hjt
+            subst hjk
+            exact Or.inr (fun e he => hnew e he)
+  | mUnlock todo =>
+    have hnd := hT.mu todo hpc
+    have hheld : ∀ j, j ∈ todo → s.writer j = some t := fun j hj => hT.wl j (by rw [hpc]; simpa [holdsW] using hj)
+    cases todo with
+    | nil =>
+      simp only [hpc, Option.some.injEq] at hs; subst hs
+      refine hI.localStep (pc' := .done true) (j := false) hth (by rw [hpc]; intro j; simp [holdsW]) (by rw [hpc]; rfl)
+        (fun _ => rfl) rfl (fun _ => rfl) rfl (fun a b h => by cases h) (fun a _ h => by simp [readKey] at h) (by simp)
+    | cons k todo =>
+      simp only [hpc, Option.some.injEq] at hs; subst hs
+      have hwk : s.writer k = some t := hheld k (by simp)
+      have hknot : k ∉ todo := (List.nodup_cons.1 hnd).1
+      have hFr : Frame s (setThread { s with writer := upd s.writer k none } t (mv ⟨.putMany ks, pc0, just0⟩ (.mUnlock todo) false)) t := by
+        refine ⟨?_, fun _ _ _ => Iff.rfl, fun _ => Or.inl rfl⟩
+        intro j
+        by_cases hjk : j = k
+        · subst hjk; exact Or.inr (Or.inr ⟨hwk, by show upd s.writer j none j = none; rw [upd_same]⟩)
+        · exact Or.inl (by show upd s.writer k none j = s.writer j; rw [upd_other _ _ hjk])
+      refine hI.mk_step (th' := mv ⟨.putMany ks, pc0, just0⟩ (.mUnlock todo) false) hth rfl hFr ?_ ?_ ?_ ?_ ?_
+      · refine trivTI _ _ _ ?_ (fun a b h => by cases h) (fun a b h => by cases h) (fun a h => by cases h) (fun a b h => by cases h) ?_ rfl
+        · intro j hj
+          have hj' : j ∈ todo := by simpa [holdsW] using hj
+          have hjk : j ≠ k := fun e => hknot (e ▸ hj')
+          show upd s.writer k none j = some t
+          rw [upd_other _ _ hjk]; exact hheld j (List.mem_cons_of_mem _ hj')
+        · intro a h; cases h; exact (List.nodup_cons.1 hnd).2
+      · intro j hj
+        have hj' : upd s.writer k none j = some t := hj
+        by_cases hjk : j = k
+        · subst hjk; rw [upd_same] at hj'; cases hj'
+        · rw [upd_other _ _ hjk] at hj'
+          have := notW j hj'; rw [hpc] at this
+          have hm : j = k ∨ j ∈ todo := by simpa [holdsW] using this
+          simpa [mv, holdsW] using hm.resolve_left hjk
+      · intro j hj; exact absurd hj (notR j)
+      · intro j w hw
+        have hw' : upd s.writer k none j = some w := hw
+        by_cases hjk : j = k
+        · subst hjk; rw [upd_same] at hw'; cases hw'
+        · rw [upd_other _ _ hjk] at hw'; exact hI.ex j w hw'
+      · refine ci_step (th' := mv ⟨.putMany ks, pc0, just0⟩ (.mUnlock todo) false) hI hth rfl hFr (fun j e h => Or.inl h) (fun j h => absurd rfl h) ?_
+        intro j _ hd; rw [hpc] at hd; simp [dirtyAt] at hd
+  | _ => simp [hpc] at hs
+
+/-- every event preserves the invariant -/
+theorem Inv.step {sz : Nat → Nat} {s s' : St} {ev : Ev} (hI : Inv s) (hs : TQC.step sz s ev = some s') : Inv s' := by
+  cases ev with
+  | spawn p => simp only [TQC.step, Option.some.injEq] at hs; subst hs; exact hI.spawn p
+  | evict k => simp only [TQC.step, Option.some.injEq] at hs; subst hs; exact hI.evict k
+  | step t =>
+    simp only [TQC.step] at hs
+    cases hth : s.threads[t]? with
+    | none => simp [hth] at hs
+    | some th =>
+      rw [hth] at hs
+      simp only at hs
+      cases hp : th.prog with
+      | read kind k => exact hI.stepRead hth hp hs
+      | put k => exact hI.stepPut hth hp hs
+      | del k => exact hI.stepDel hth hp hs
+      | putMany ks => exact hI.stepPutMany hth hp hs
+
+theorem Inv.reachable {sz : Nat → Nat} {s : St} (h : Steps.Reach (TQC.step sz) TQC.init s) : Inv s :=
+  Steps.invariant_of_init_step Inv (fun _ hi => Inv.init hi) (fun _ _ _ hI hs => Inv.step hI hs) h
 
 end C02.TQC
